@@ -5,16 +5,17 @@ Proof. destruct o; cbn; split; intros H; try (destruct H; discriminate); try dis
 
 Lemma run_cli_completed i :
   run_cli i = Completed <->
-  (in_regular i = true /\ out_is_in i = false /\ parser_test i = false /\ has_cmd i = true /\ cmd_regular i = true /\ cmd_exec i = true
+  (in_regular i = true /\ out_ok i = true /\ out_is_in i = false /\ parser_test i = false /\ has_cmd i = true /\ cmd_regular i = true /\ cmd_exec i = true
    /\ (has_cc i = true -> cc_regular i = true /\ cc_exec i = true /\ cc_runs i = true)
-   /\ jobs_ok i = true /\ cmd_runs i = true /\ golden_has_match i = true /\ interrupted i = false /\ internal i = None).
+   /\ jobs_ok i = true /\ limits_ok i = true /\ in_decodable i = true /\ cmd_runs i = true /\ golden_has_match i = true /\ interrupted i = false /\ internal i = None).
 Proof.
   unfold run_cli.
-  destruct i as [a o b c d e hc cr ce j r rc f g h]; cbn.
-  destruct a, o, b, c, d, e, hc, cr, ce, j, r, rc, f, g; cbn; destruct h; cbn;
+  destruct i as [a oo o b c d e hc cr ce j lo dec r rc f g h]; cbn.
+  destruct a, oo, o, b, c, d, e; cbn; try (split; [discriminate | intros (H1 & H2 & H3 & H4 & H5 & H6 & H7 & _); discriminate]);
+  destruct hc, cr, ce, j, lo, dec, r, rc, f, g; cbn; destruct h; cbn;
     (split; [intros H; try discriminate H; repeat split; try reflexivity; intros; try discriminate; repeat split; reflexivity
-            | intros (H1 & H2 & H3 & H4 & H5 & H6 & H7 & H8 & H9 & H10 & H11 & H12); try discriminate;
-              try reflexivity; try (destruct (H7 eq_refl) as (? & ? & ?); discriminate)]).
+            | intros (H1 & H2 & H3 & H4 & H5 & H6 & H7 & H8 & H9 & H10 & H11 & H12 & H13 & H14 & H15); try discriminate;
+              try reflexivity; try (destruct (H8 eq_refl) as (? & ? & ?); discriminate)]).
 Qed.
 
 (* a command that the system cannot run, a missing match string: one diagnostic line, status 1 *)
@@ -24,13 +25,14 @@ Proof. intros ->. split; reflexivity. Qed.
 (* no usage error, however combined, reaches the minimisation: status 0 needs every check to pass *)
 Lemma status_zero_checks i :
   exit_status (run_cli i) = 0%Z -> parser_test i = false ->
-  in_regular i = true /\ out_is_in i = false /\ has_cmd i = true /\ cmd_regular i = true /\ cmd_exec i = true /\ jobs_ok i = true /\ cmd_runs i = true.
+  in_regular i = true /\ out_ok i = true /\ out_is_in i = false /\ has_cmd i = true /\ cmd_regular i = true /\ cmd_exec i = true /\ jobs_ok i = true
+  /\ limits_ok i = true /\ in_decodable i = true /\ cmd_runs i = true.
 Proof.
   intros H Hp. apply exit_status_lemma in H. destruct H as [H | H].
-  - apply run_cli_completed in H. destruct H as (? & ? & ? & ? & ? & ? & ? & ? & ? & ?). repeat split; assumption.
+  - apply run_cli_completed in H. destruct H as (? & ? & ? & ? & ? & ? & ? & ? & ? & ? & ? & ? & ?). repeat split; assumption.
   - unfold run_cli in H. rewrite Hp in H.
-    destruct (in_regular i), (out_is_in i), (has_cmd i), (cmd_regular i), (cmd_exec i); cbn in H; try discriminate H;
-      destruct (has_cc i), (cc_regular i), (cc_exec i), (jobs_ok i), (cmd_runs i), (golden_has_match i), (cc_runs i), (interrupted i), (internal i);
+    destruct (in_regular i), (out_ok i), (out_is_in i), (has_cmd i), (cmd_regular i), (cmd_exec i); cbn in H; try discriminate H;
+      destruct (has_cc i), (cc_regular i), (cc_exec i), (jobs_ok i), (limits_ok i), (in_decodable i), (cmd_runs i), (golden_has_match i), (cc_runs i), (interrupted i), (internal i);
       cbn in H; discriminate H.
 Qed.
 
